@@ -135,6 +135,35 @@ theorem quantify_rows {α : Type} [LinearOrder α] [Add α] [Mul α] [Div α] [N
     rw [filterMap_some_eq_map]
     simp [findReporterIons, List.map_map, Function.comp_def]
 
+/-- **C18.rows_shape** — the shape of the reporter table, for every number type, plex (any label list),
+tolerance and spectrum list: no row at level 1, otherwise exactly one row per spectrum of the configured level;
+every row carries exactly one value per channel (`labels.length`, in plex order by `quantify_rows`); and a run
+whose spectra are all of other levels produces no row at all. -/
+theorem rows_shape {α : Type} [LinearOrder α] [Add α] [Mul α] [Div α] [Neg α]
+    [OfNat α 1000000] [OfNat α 100] [OfNat α 0]
+    (proton : α) (spectra : List (Spectrum α)) (labels : List α) (tol : Tol α) (level : Nat) :
+    (quantify proton spectra labels tol level).length =
+      (if level = 1 then 0 else (spectra.filter (fun s => s.level == level)).length) ∧
+    (∀ r ∈ quantify proton spectra labels tol level, r.peaks.length = labels.length) ∧
+    ((∀ s ∈ spectra, s.level ≠ level) → quantify proton spectra labels tol level = []) := by
+  rw [quantify_rows]
+  refine ⟨?_, ?_, ?_⟩
+  · split <;> simp
+  · intro r hr
+    split at hr
+    · simp at hr
+    · simp only [List.mem_map] at hr
+      obtain ⟨s, _, rfl⟩ := hr
+      simp
+  · intro h
+    have : spectra.filter (fun s => s.level == level) = [] := by
+      rw [List.filter_eq_nil_iff]
+      intro s hs
+      simpa using h s hs
+    split
+    · rfl
+    · rw [this]; rfl
+
 /-- the window of a channel in mass space, as `find_reporter_ions` computes it -/
 def chanWindow {α : Type} [Add α] [Mul α] [Div α] [Neg α] [OfNat α 1000000] [OfNat α 100] [OfNat α 0]
     (proton : α) (tol : Tol α) (label : α) : α × α :=
